@@ -142,6 +142,9 @@ def build_router(case: dict, trace: Trace, loop: vclock.VLoop, fn_tag: str = "",
         trace.active_log.append((loop.time(), trace.active))
         e.t1 = loop.time()
         e.end = end
+        ev = trace.extra.setdefault("done_events", {}).get(e.id)
+        if ev is not None:
+            ev.set()
 
     async def perform(e: Exec, m: Any) -> Any:
         o = e.outcome or {"k": "ret", "v": None}
@@ -353,20 +356,35 @@ async def run_worker_case(loop: vclock.VLoop, case: dict, *, settled: Callable[[
     for q in queues:
         await Queue(q, _connection=conn).declare()
 
+    done_events = trace.extra.setdefault("done_events", {})
+    for j in case["jobs"]:
+        if j.get("after") is not None:
+            done_events.setdefault(j["after"], asyncio.Event())
+
     async def produce(j: dict) -> None:
+        if j.get("after") is not None:
+            # arrive exactly when another job's actor body finishes (a slot is about to free)
+            await done_events[j["after"]].wait()
+            if j.get("after_delay"):
+                await asyncio.sleep(j["after_delay"])
         dt = j.get("enqueue_at", 0.0) - loop.time()
-        if dt > 0:
+        if dt > 0 and j.get("after") is None:
             await asyncio.sleep(dt)
         job = Job(**job_kwargs(j, conn))
         trace.job_objs[j["id"]] = job
         trace.enqueue_t[j["id"]] = loop.time()
+        if j.get("defer_by") is not None or j.get("defer_until") is not None:
+            # the slot the broker is told at this very instant (brokers evaluate it synchronously on enqueue)
+            p0 = job._construct_parameters()
+            first = p0.delay.next_execution_time or p0.compute_next_execution_time
+            trace.extra.setdefault("first_slot", {})[j["id"]] = None if first is None else vclock.secs(first)
         trace.enqueued[j["id"]] = await job.enqueue()
 
     producers = [asyncio.ensure_future(produce(j)) for j in case["jobs"]]
     # jobs with enqueue_at <= worker start are enqueued before the worker starts
     w = case.get("worker", {})
     start_at = w.get("start_at", 0.0)
-    early = [p for p, j in zip(producers, case["jobs"]) if j.get("enqueue_at", 0.0) <= start_at]
+    early = [p for p, j in zip(producers, case["jobs"]) if j.get("enqueue_at", 0.0) <= start_at and j.get("after") is None]
     if early:
         await asyncio.gather(*early)
     if loop.time() < start_at:
